@@ -66,6 +66,7 @@ type newDepositArgs struct {
 	KeyIdx    int    `json:"key_idx"` // -1: whatever the node hands out
 	Extra     int    `json:"extra_outputs,omitempty"`
 	ScriptMut string `json:"script_mut,omitempty"` // the user pays a near miss of the handed-out script
+	Repeat    int    `json:"repeat,omitempty"`     // that many further deposits of other users in the same step (burst)
 }
 
 type proveArgs struct {
@@ -143,7 +144,14 @@ func (w *World) applyRelayerStep(st Step) (string, bool) {
 		if !jsonArgs(st, &a) {
 			return "bad-args", true
 		}
-		return w.stepNewDeposit(a, newRand(st.S, "apply")), true
+		out := w.stepNewDeposit(a, newRand(st.S, "apply"))
+		for i := 0; i < a.Repeat && i < 64; i++ {
+			b := a
+			b.User = (a.User + 1 + i) % len(w.Users)
+			b.Value = a.Value + uint64(i)*1000
+			w.stepNewDeposit(b, newRand(st.S, "apply", i))
+		}
+		return out, true
 	}
 	if w.view() == nil {
 		switch st.K {
@@ -1071,7 +1079,11 @@ func (w *World) genDepositStep(r *Rand, sub uint64, bad bool) Step {
 	if !w.Cfg.FaultFree && (bad || r.Chance(0.1)) {
 		mut = pick(r, []string{"witver", "witver", "flip-program", "push-len"})
 	}
-	return mkStep("btc.deposit", newDepositArgs{User: r.Intn(len(w.Users)), Value: val, Version: ver, Coinbase: r.Chance(0.12), Node: r.Intn(w.Cfg.Nodes), KeyIdx: -1, Extra: r.Intn(3), ScriptMut: mut}, sub)
+	rep := 0
+	if w.Cfg.Bursts && mut == "" && r.Chance(0.12) {
+		rep = 8 + r.Intn(16) // more than the 8 deposits handed over per block
+	}
+	return mkStep("btc.deposit", newDepositArgs{User: r.Intn(len(w.Users)), Value: val, Version: ver, Coinbase: r.Chance(0.12), Node: r.Intn(w.Cfg.Nodes), KeyIdx: -1, Extra: r.Intn(3), ScriptMut: mut, Repeat: rep}, sub)
 }
 
 func (w *World) genParamOps(r *Rand) []*ELOp {
